@@ -6,12 +6,16 @@ property's own predicate on the implementation's output, by brute force over tru
   * truth table of the observed result = projection (∃ = or, ∀ = and) over the quantified / triggered
     variables of the outer connective applied pointwise to the operands' truth tables,
   * no decision node of the result tests a quantified variable (support disjoint from the set),
-  * the result is canonical (`isCanon`),
-  * two orderings (with duplicates) of the same variable set give the identical array,
-  * deprecated aliases (`project`, `var_project`) give the identical array, and so do `exists([x])` /
-    `var_exists(x)` and `for_all([x])` / `var_for_all(x)`,
-  * the variables tested by the result are exactly the variables the projected function depends on,
-  * passing the very same object twice (`alias`) or a clone (`clone`) makes no difference.
+  * two orderings (with duplicates) of the same variable set, the deprecated aliases (`project`, `var_project`),
+    `exists([x])` / `var_exists(x)`, `for_all([x])` / `var_for_all(x)`, and the very same object passed twice
+    (`alias`) or a clone (`clone`): every one of these results must denote the SAME projection (judged
+    semantically, field by field),
+  * for canonical operands only (structural clauses): no node tests a quantified variable, the tested variables
+    are exactly those the projected function depends on, and the result is canonical (`isCanon`).
+Inputs OUTSIDE the statement's quantifier — `var_exists`/`var_for_all` on a non-variable, lists containing a
+non-variable, operands with different variable counts — get no predicate clause at all: such a case is `OK`
+iff the observation equals the model's outcome and a plain disagreement otherwise (also for `hang`).
+Nothing is claimed about panic messages.
 Diagrams over more than `maxTT` variables with a small support (the wide stream) are checked by brute force
 over the valuations of the union of the supports of operands and result, under several fixed background
 patterns for all other variables; only when that union exceeds `maxTT` variables (the big-operand stream) is
@@ -109,7 +113,8 @@ def depsOf (m : Nat) (t : Array Bool) : List Nat :=
 
 /-- brute force over the union `U` of the supports: projection under every background, and exactness of
     the result's support -/
-def checkCompressed (U : List Nat) (res L R : Arr) (c d : Bool → Bool → Bool) (q : Nat → Bool) : List (Option String) :=
+def checkCompressed (U : List Nat) (res L R : Arr) (c d : Bool → Bool → Bool) (q : Nat → Bool)
+    (structural : Bool) : List (Option String) :=
   let m := U.length
   let table := fun (A : Arr) (bg : Nat → Bool) => (Array.range (2 ^ m)).map fun i => evalArr A (valOn U i bg)
   let want := fun (bg : Nat → Bool) =>
@@ -118,16 +123,22 @@ def checkCompressed (U : List Nat) (res L R : Arr) (c d : Bool → Bool → Bool
     (List.range m).foldl (fun t k => if q (U.getD k 0) then projVar m d t k else t) o
   let bg0 : Nat → Bool := fun _ => false
   [ if backgrounds.all (fun bg => (table res bg).toList == (want bg).toList) then none else some "projection",
-    if (depsOf m (want bg0)).map (fun k => U.getD k 0) == supportOf res then none else some "support-not-exact" ]
+    if !structural || (depsOf m (want bg0)).map (fun k => U.getD k 0) == supportOf res then none
+    else some "support-not-exact" ]
 
-/-- the predicate on one observed result -/
-def checkRes (n : Nat) (res L R : Arr) (c d : Bool → Bool → Bool) (q : Nat → Bool) : Option String :=
+/-- the predicate on one observed result, for inputs the statement covers.
+    Always: the result is a diagram over the same `n` variables and denotes the projection.
+    `structural` (all operands canonical): additionally no node tests a quantified variable, the tested
+    variables are exactly those the function depends on, and the array is canonical — for operands that are
+    merely valid (not canonical) only the semantic clauses are claimed. -/
+def checkRes (n : Nat) (res L R : Arr) (c d : Bool → Bool → Bool) (q : Nat → Bool) (structural : Bool) : Option String :=
   let U := if n ≤ maxTT then List.range n else mergeSorted (supportOf res) (mergeSorted (supportOf L) (supportOf R))
   firstFail (
-    (if U.length ≤ maxTT then checkCompressed U res L R c d q else [checkSampled n res L R c d q]) ++ [
-    if (res.toList.drop 2).all (fun nd => !(q nd.var)) then none else some "support-not-disjoint",
-    if numVars res == n then none else some "num-vars",
-    if isCanon res then none else some "not-canonical"])
+    [if numVars res == n then none else some "num-vars"] ++
+    (if U.length ≤ maxTT then checkCompressed U res L R c d q structural else [checkSampled n res L R c d q]) ++
+    (if structural then [
+      if (res.toList.drop 2).all (fun nd => !(q nd.var)) then none else some "support-not-disjoint",
+      if isCanon res then none else some "not-canonical"] else []))
 
 def parseVars? (s : String) : Option (List Nat) :=
   if s == "~" then some [] else (s.splitOn ",").mapM (·.toNat?)
@@ -161,30 +172,44 @@ def showO : Option Arr → String
   | some A => showArr A
   | none => "panic"
 
-/-- one group of observed fields that must all be the projection `Q_q^d (c L R)`: `models` are the model's
-    outputs (`none` = the model says the call panics), `obs` the observed fields.
+/-- one group of observed fields that must all be the projection `Q_q^d (c L R)`, for inputs INSIDE the
+    property's quantifier: `models` are the model's outputs, `obs` the observed fields (the text `panic`,
+    `hang` or anything unparsable is an outcome the statement does not allow there).
+    Order / repetition / alias invariance is judged semantically: every field must denote the projection over
+    the same variable set (nothing is claimed about internal details of semantically equal results, except
+    through the structural clauses for canonical operands).
     Returns the model text, the failed clause (if any) and the first parsed result. -/
 def checkGroup (n : Nat) (L R : Arr) (c d : Bool → Bool → Bool) (q : Nat → Bool)
     (models : List (Option Arr)) (obs : List String) : String × Option String × Option Arr :=
   let modelS := " ".intercalate (models.map showO)
   let parsed := obs.map parseArr?
-  let perField := (models.zip (parsed.zip obs)).map fun (m, p, o) =>
-    match m, p with
-    | none, _ => if o == "panic" then none else some "outcome:expected-panic"
-    | some _, some A => checkRes n A L R c d q
-    | some _, none => some ("outcome:" ++ o)
-  let live := (models.zip obs).filterMap fun (m, o) => if m.isSome then some o else none
-  let fail := firstFail (perField ++
-    [if models.length == obs.length then none else some "outcome:field-count",
-     if live.all (· == live.headD "") then none else some "order-or-alias-dependent"])
-  (modelS, fail, parsed.headD none)
+  let structural := isCanon L && isCanon R
+  let perField := (parsed.zip obs).map fun (p, o) =>
+    match p with
+    | some A => checkRes n A L R c d q structural
+    | none => some ("outcome:" ++ o)
+  (modelS, firstFail perField, parsed.headD none)
 
-/-- common part of the single-group kinds -/
+/-- verdict for inputs OUTSIDE the property's quantifier (decided from the inputs alone: a variable argument
+    or list element that is not a variable of the operands, operands with different variable counts): the
+    statement claims nothing, every predicate clause is off; the case only records whether the
+    implementation still does what the model says (`panic`, a value, …; also for the observation `hang`) -/
+def outsideVerdict (kind : String) (models : List (Option Arr)) (obs : List String) : Verdict :=
+  let modelS := " ".intercalate (models.map showO)
+  { agree := modelS == " ".intercalate obs, model := modelS, fail := none, nontrivial := false,
+    tags := ["outside-quantifier", kind] }
+
+/-- common part of the single-group kinds; `outside` = the inputs are outside the quantifier -/
 def verdict (kind : String) (n : Nat) (L R : Arr) (c d : Bool → Bool → Bool) (q : Nat → Bool)
-    (models : List (Option Arr)) (obs : List String) : Verdict :=
+    (models : List (Option Arr)) (obs : List String) (outside : Bool := false) : Verdict :=
+  if outside || numVars L != numVars R || numVars L != n then outsideVerdict kind models obs else
+  if obs != ["hang"] && models.length != obs.length then Verdict.bad "field count (harness bug)" else
   let (modelS, fail, first) := checkGroup n L R c d q models obs
   { agree := modelS == " ".intercalate obs, model := modelS, fail,
     nontrivial := nontriv first [L, R] q, tags := tagsOf kind n [L, R] q }
+
+/-- some element of the list is not a variable of a diagram over `n` variables -/
+def hasNonVar (n : Nat) (vs : List Nat) : Bool := vs.any (· ≥ n)
 
 def formOk (form l r : String) : Bool := form == "sep" || ((form == "alias" || form == "clone") && l == r)
 
@@ -212,16 +237,22 @@ def handle (key : String) (ins obs : List String) : Verdict :=
       let m1 := nestedApplyO A B trig op Gen.or_
       let m2 := m1.bind fun r => nestedApplyO r A trig op Gen.and_
       let m3 := m1.bind fun r => nestedApplyO r r trig op Gen.or_
+      if numVars A != numVars B || numVars A != n || hasNonVar n vs then outsideVerdict "chain" [m1, m2, m3] obs else
       let (s1, f1, first) := checkGroup n A B (conn2 c) (· || ·) trig [m1] [o1]
       -- the later steps are judged relative to the OBSERVED intermediate result
       let (f2, f3) := match first with
-        | some r => ((checkGroup n r A (conn2 c) (· && ·) trig [m2] [o2]).2.1,
+        | some r => if numVars r != n then (none, none) else
+                    ((checkGroup n r A (conn2 c) (· && ·) trig [m2] [o2]).2.1,
                      (checkGroup n r r (conn2 c) (· || ·) trig [m3] [o3]).2.1)
         | none => (none, none)
       let modelS := s!"{s1} {showO m2} {showO m3}"
       { agree := modelS == " ".intercalate obs, model := modelS,
         fail := firstFail [f1, f2.map ("step2:" ++ ·), f3.map ("step3:" ++ ·)],
         nontrivial := nontriv first [A, B] trig, tags := form :: s!"conn{c}" :: tagsOf "chain" n [A, B] trig }
+    | some n, some _, some A, some B, some vs, _ =>
+      -- e.g. the single observation `hang`
+      if numVars A != numVars B || numVars A != n || hasNonVar n vs then outsideVerdict "chain" [] obs
+      else { agree := false, model := "three results", fail := some ("outcome:" ++ " ".intercalate obs), tags := ["chain"] }
     | _, _, _, _, _, _ => Verdict.bad "args"
   | k, [n, table, conn, l, r, vs1, vs2] =>
     if k != "C03.exq" && k != "C03.allq" then Verdict.bad ("key " ++ key) else
@@ -233,21 +264,21 @@ def handle (key : String) (ins obs : List String) : Verdict :=
       let ex := k == "C03.exq"
       let f := fun vs => nestedApplyO L R (trigOfList vs) op (if ex then Gen.or_ else Gen.and_)
       verdict (if ex then "exq" else "allq") n L R (conn2 c) (if ex then (· || ·) else (· && ·))
-        (trigOfList v1) [f v1, f v2] obs
+        (trigOfList v1) [f v1, f v2] obs (hasNonVar n (v1 ++ v2))
     | _, _, _, _, _, _ => Verdict.bad "args"
   | "C03.exists", [l, vs1, vs2] =>
     match parseArr? l, parseVars? vs1, parseVars? vs2 with
     | some L, some v1, some v2 =>
       if !sameSet v1 v2 then Verdict.bad "lists are not the same set (harness bug)" else
       verdict "exists" (numVars L) L L (· && ·) (· || ·) (trigOfList v1)
-        (let m := some (bddExists L v1); [m, some (bddExists L v2), m]) obs
+        (let m := some (bddExists L v1); [m, some (bddExists L v2), m]) obs (hasNonVar (numVars L) (v1 ++ v2))
     | _, _, _ => Verdict.bad "args"
   | "C03.forall", [l, vs1, vs2] =>
     match parseArr? l, parseVars? vs1, parseVars? vs2 with
     | some L, some v1, some v2 =>
       if !sameSet v1 v2 then Verdict.bad "lists are not the same set (harness bug)" else
       verdict "forall" (numVars L) L L (· && ·) (· && ·) (trigOfList v1)
-        [some (bddForAll L v1), some (bddForAll L v2)] obs
+        [some (bddForAll L v1), some (bddForAll L v2)] obs (hasNonVar (numVars L) (v1 ++ v2))
     | _, _, _ => Verdict.bad "args"
   | "C03.varex", [l, x] =>
     match parseArr? l, x.toNat? with
@@ -255,14 +286,14 @@ def handle (key : String) (ins obs : List String) : Verdict :=
       let m := varExistsO L x
       -- optional third observation: `exists([x])` (never panics; equals `var_exists(x)` when `x` is a variable)
       let models := if obs.length == 3 then [m, m, some (bddExists L [x])] else [m, m]
-      verdict "varex" (numVars L) L L (· && ·) (· || ·) (· == x) models obs
+      verdict "varex" (numVars L) L L (· && ·) (· || ·) (· == x) models obs (x ≥ numVars L)
     | _, _ => Verdict.bad "args"
   | "C03.varall", [l, x] =>
     match parseArr? l, x.toNat? with
     | some L, some x =>
       let m := varForAllO L x
       let models := if obs.length == 2 then [m, some (bddForAll L [x])] else [m]
-      verdict "varall" (numVars L) L L (· && ·) (· && ·) (· == x) models obs
+      verdict "varall" (numVars L) L L (· && ·) (· && ·) (· == x) models obs (x ≥ numVars L)
     | _, _ => Verdict.bad "args"
   | "C03.nestl", [n, table, conn, l, r, vs, inner, iconn, form] =>
     match n.toNat?, conn.toNat?, parseArr? l, parseArr? r, parseVars? vs, iconn.toNat? with
@@ -287,7 +318,7 @@ def handle (key : String) (ins obs : List String) : Verdict :=
       let ex := k == "C03.exqf"
       let f := fun vs => nestedApplyO L R (trigOfList vs) op (if ex then Gen.or_ else Gen.and_)
       let v := verdict (if ex then "exqf" else "allqf") n L R (conn2 c) (if ex then (· || ·) else (· && ·))
-        (trigOfList v1) [f v1, f v2] obs
+        (trigOfList v1) [f v1, f v2] obs (hasNonVar n (v1 ++ v2))
       { v with tags := form :: s!"conn{c}" :: v.tags }
     | _, _, _, _, _, _ => Verdict.bad "args"
   | _, _ => Verdict.bad ("key " ++ key)
